@@ -1,5 +1,5 @@
 """C01 - lazy cache coherence: heap contracts on _reset / set_value (pycel.excelcompiler)."""
-from pyvc.heapspec import (cached, cell_at, computed, forall_nodes, holds_f, in_done, in_map, old_cached,
+from pyvc.heapspec import (cached, cell_at, computed, forall_nodes, has_formula, holds_f, in_done, in_map, is_range, old_cached,
                            reads, same_node, same_value, succ, value_is)
 from pyvc.spec import (Const, Contract, HeapCell, HeapCompiler, Lemma, NoneT, OpaqueV, Str, Union,
                        implies)
@@ -120,6 +120,88 @@ CONTRACTS.append(
              ensures=[sv_writes_value, sv_frame, sv_keeps_local_i, sv_keeps_local_ii],
              modular=[RESET]))
 
+
+# -- _evaluate(address): computes a missing value from cached precedents, keeps every cached value and Local -------
+
+EVALUATE = 'pycel.excelcompiler:ExcelCompiler._evaluate'
+EVALUATE_RANGE = 'pycel.excelcompiler:ExcelCompiler._evaluate_range'
+
+
+def computed_iff_formula_or_range():
+    """the vocabulary of C01 tied to the fields the code tests: a node is computed iff it is a range node or a cell with
+    a formula"""
+    return forall_nodes(lambda m: computed(m) == (has_formula(m) or is_range(m)))
+
+
+def no_self_reads():
+    return forall_nodes(lambda m: not reads(m, m))
+
+
+def pre_evaluate(self, address):
+    return (in_map(address) and local_precedents_cached() and local_values_are_f() and computed_iff_formula_or_range()
+            and no_self_reads())
+
+
+def ev_returns_the_cell_value(self, address, result):
+    return value_is(cell_at(address), result)
+
+
+def ev_keeps_cached_values(self, address, result):
+    return forall_nodes(lambda m: implies(old_cached(m), same_value(m)))
+
+
+def ev_keeps_local_i(self, address, result):
+    return local_precedents_cached()
+
+
+def ev_keeps_local_ii(self, address, result):
+    return local_values_are_f()
+
+
+def ev_computed_cell_is_cached_and_is_f(self, address, result):
+    """after evaluate a computed cell holds a value, and it is what its formula yields from the current values of
+    its precedents (with Local and acyclicity: the from-scratch value)"""
+    c = cell_at(address)
+    return implies(computed(c), cached(c) and holds_f(c))
+
+
+# what holds across the nested evaluations a formula makes (the same clauses, used as induction hypothesis)
+def evf_keeps_cached_values(self, address):
+    return forall_nodes(lambda m: implies(old_cached(m), same_value(m)))
+
+
+def evf_keeps_local_i(self, address):
+    return local_precedents_cached()
+
+
+def evf_keeps_local_ii(self, address):
+    return local_values_are_f()
+
+
+def er_post(self, address, result):
+    c = cell_at(address)
+    return (forall_nodes(lambda m: implies(old_cached(m), same_value(m))) and local_precedents_cached()
+            and local_values_are_f() and cached(c) and holds_f(c))
+
+
+ASSUMED = [
+    Contract(EVALUATE_RANGE, 'C01', heap=True, params=dict(self=HeapCompiler(cycles=False), address=Str()),
+             ensures=[er_post], returns=OpaqueV(), klass='BOUNDED',
+             notes='range value = tuple of member evaluations / CSE evaluation: nested generator expressions over '
+                   'resolve_range; used by _evaluate through this contract (same frame as _evaluate itself)'),
+]
+
+CONTRACTS.append(
+    Contract(EVALUATE, 'C01', heap=True, modular=[EVALUATE_RANGE],
+             params=dict(self=HeapCompiler(cycles=False, evaluating=[evf_keeps_cached_values, evf_keeps_local_i,
+                                                                    evf_keeps_local_ii]),
+                         address=Str()),
+             requires=[pre_evaluate],
+             ensures=[ev_returns_the_cell_value, ev_keeps_cached_values, ev_keeps_local_i, ev_keeps_local_ii,
+                      ev_computed_cell_is_cached_and_is_f],
+             notes='nested evaluations made by the compiled formula are covered by the frame clauses of this very '
+                   'contract (induction on recursion depth; acyclic model)'))
+
 LEMMAS = []
 LEVEL = 'other'
 EXPLANATION = 'C01'
@@ -225,10 +307,15 @@ EXPLANATION = ('Mixed. PROVED (SMT over an uninterpreted heap: value : Node -> V
                'cell writes exactly the given value (0 / FALSE and 1 / TRUE are different, blank included), changes no other '
                'cached value, and re-establishes the invariant Local = (every cached computed node has cached read-precedents, '
                'and its value is F(node, current values)) from which "cached => from-scratch value" follows by induction on '
-               'the graph rank. BOUNDED (native): evaluate / graph construction (they re-enter compiled formulas: A-EVAL) - '
+               'the graph rank; ExcelCompiler._evaluate keeps every cached value and Local and leaves a computed cell cached '
+               'with value = F(cell, values) - the nested evaluations its formula makes are covered by the frame clauses of the '
+               'same contract (induction on recursion depth; A-EVAL, A-ACYCLIC), range nodes through an assumed contract of '
+               '_evaluate_range. BOUNDED (native): graph construction and the whole evaluate path - '
                'random histories on small workbooks from every origin against a from-scratch compile, with the same '
                'contracts evaluated on the real heap after every set_value / _reset.')
 ASSUMPTIONS = ['A-SUBSET', 'A-NX (networkx DiGraph as node set + edge relation)',
+               'A-ACYCLIC (evaluating a formula does not transitively evaluate the same cell; a cycle raises RecursionError)',
+               'A-CODE (a formula object carries python code); computed references (INDIRECT / OFFSET results) are outside the _evaluate contract',
                'A-EVAL (formula evaluation is a function F of the read-precedents; monitored by C04)',
                'A-PYEQ (== on cell values: reflexive; same type and equal => identical)',
                'A-STORED (results stored in a file are consistent with its inputs)']
